@@ -18,7 +18,6 @@ Inductive exn := EIndex | EOracle.
 Inductive outcome :=
 | Return (ret : list res)        (* run() returned the list *)
 | ReturnUnit                     (* return_results=False: returned None by design *)
-| ReturnNone                     (* the early `return` when no live worker exists *)
 | PoolErr (partial : list res)
 | Internal (e : exn)
 | Livelock                       (* fuel of the nested re-dispatch exhausted *)
@@ -326,7 +325,6 @@ Definition reset (c : cfg) (s : St) (inputs : list inp) : St :=
 Definition fuel_of (c : cfg) : nat := S (S (S (n c + n c))).
 
 Definition run_from (c : cfg) (s0 : St) (inputs : list inp) (script : list op) : outcome * St :=
-  if negb (any_open c s0) then (ReturnNone, s0) else
   let s := reset c s0 inputs in
   match first_enqueue c (fuel_of c) s (S (extra c)) with
   | Stop o => (o, s)
@@ -363,7 +361,7 @@ Definition between_step (c : cfg) (s : St) (b : between) : St :=
   end.
 
 Definition is_fin (o : outcome) : bool :=
-  match o with Return _ | ReturnUnit | ReturnNone | PoolErr _ => true | _ => false end.
+  match o with Return _ | ReturnUnit | PoolErr _ => true | _ => false end.
 
 (* one round = what happens while idle, then run(inputs) under a script; a run which does not end
    (Blocked: the script is exhausted; Livelock; internal error) ends the history *)
